@@ -23,6 +23,7 @@ import (
 	"math/big"
 	"os"
 	"runtime"
+	"runtime/debug"
 	"sort"
 	"strings"
 	"sync"
@@ -671,7 +672,7 @@ func c37SizeClass(N int, lo, hi uint64, n int) string {
 }
 
 // c37RingSet runs everything of leg 1 for one endpoint set.
-func c37RingSet(ws []uint32, pairs [][2]uint64, perms [][]int, balPair func(lo, hi uint64) bool, fl *c37Fails, st *c37RingStats) {
+func c37RingSet(ws []uint32, pairs [][2]uint64, allPerms, bigPerms [][]int, balPair func(lo, hi uint64) bool, fl *c37Fails, st *c37RingStats) {
 	n := len(ws)
 	var evals, nontriv, rings, balRuns, searches, zeroCases, devGE1, collisions int64
 	var maxDev float64
@@ -759,6 +760,10 @@ func c37RingSet(ws []uint32, pairs [][2]uint64, perms [][]int, balPair func(lo, 
 			fl.add(sp.class, c37Ord(ws, lo, hi), caseStr, caseStr+": "+sp.desc, rep)
 		}
 		sig0 := c37Sig(r0)
+		perms := allPerms
+		if hi >= 1024 {
+			perms = bigPerms // == allPerms in the thorough tier
+		}
 		// order independence, direct: every insertion order
 		for pi, perm := range perms {
 			if pi == 0 {
@@ -801,6 +806,9 @@ func c37RingSet(ws []uint32, pairs [][2]uint64, perms [][]int, balPair func(lo, 
 func TestVerif_C37_Ring(t *testing.T) {
 	r := vk.Start(t, "c37_ring", "exploration", c37P)
 	defer r.Finish()
+	// many short-lived ring entries, tiny live heap: keep the collector from
+	// running every few MB
+	defer debug.SetGCPercent(debug.SetGCPercent(1600))
 	fl := c37NewFails()
 	st := &c37RingStats{outcomes: map[string]int64{}}
 	allPairs := c37Pairs(c37Sizes)
@@ -815,7 +823,7 @@ func TestVerif_C37_Ring(t *testing.T) {
 			r.EngineError("replay: bad weights %v", c.Weights)
 			return
 		}
-		c37RingSet(c.Weights, [][2]uint64{{c.Min, c.Max}}, c37Perms(len(c.Weights)), func(lo, hi uint64) bool { return hi <= 1024 }, fl, st)
+		c37RingSet(c.Weights, [][2]uint64{{c.Min, c.Max}}, c37Perms(len(c.Weights)), c37Perms(len(c.Weights)), func(lo, hi uint64) bool { return hi <= 1024 }, fl, st)
 		r.Eval(c37P, st.evals)
 		r.Rule(c37P, "replay of one endpoint set and ring size pair (all orders)")
 		fl.report(r)
@@ -827,11 +835,12 @@ func TestVerif_C37_Ring(t *testing.T) {
 	// quick: n<=3 over the full weight menu, n=4 over a sub-menu; thorough: n<=4 over the full menu
 	menu4 := full
 	if !r.Thorough() {
-		menu4 = []uint32{1, 3, 100, 1000000000, math.MaxUint32}
+		menu4 = []uint32{1, 7, 1000000000, math.MaxUint32}
 	}
 	type job struct {
 		ws    []uint32
 		perms [][]int
+		big   [][]int
 		pairs [][2]uint64
 		bal   func(lo, hi uint64) bool
 	}
@@ -849,28 +858,38 @@ func TestVerif_C37_Ring(t *testing.T) {
 			m = menu4
 		}
 		perms := c37Perms(n)
+		big := perms
+		if !r.Thorough() {
+			// quick: rings with max_ring_size >= 1024 are built in the first and
+			// the last (reversed) insertion order only (n=4: first only)
+			big = [][]int{perms[0], perms[len(perms)-1]}
+			if n == 4 || n == 1 {
+				big = perms[:1]
+			}
+		}
 		for _, ws := range c37Tuples(m, n) {
-			jobs = append(jobs, job{ws, perms, allPairs, bal})
+			jobs = append(jobs, job{ws, perms, big, allPairs, bal})
 		}
 	}
 	// wide sets (beyond the n<=4 bound of the plan; insertion order = identity and
 	// reversed only): more endpoints make the float accumulation of the
 	// per-endpoint targets longer. n=5,6 (quick: menu {1,3,7}; thorough: n=5..7, menu {1,3,7,100,1e9}).
-	wideMenu := []uint32{1, 3, 7}
-	wideMax := 6
+	wideMenus := map[int][]uint32{5: {1, 3, 7}, 6: {1, 3}}
 	if r.Thorough() {
-		wideMenu = []uint32{1, 3, 7, 100, 1000000000}
-		wideMax = 7
+		wideMenus = map[int][]uint32{5: {1, 3, 7, 100, 1000000000}, 6: {1, 3, 7}, 7: {1, 3}, 8: {1, 3}}
 	}
 	nWide := 0
-	for n := 5; n <= wideMax; n++ {
+	for n := 5; n <= 8; n++ {
+		if wideMenus[n] == nil {
+			continue
+		}
 		rev := make([]int, n)
 		for i := range rev {
 			rev[i] = n - 1 - i
 		}
 		perms := [][]int{c37Identity(n), rev}
-		for _, ws := range c37Tuples(wideMenu, n) {
-			jobs = append(jobs, job{ws, perms, allPairs, none})
+		for _, ws := range c37Tuples(wideMenus[n], n) {
+			jobs = append(jobs, job{ws, perms, perms, allPairs, none})
 			nWide++
 		}
 	}
@@ -889,7 +908,7 @@ func TestVerif_C37_Ring(t *testing.T) {
 		}
 		j := jobs[order[k]]
 		t0 := time.Now()
-		c37RingSet(j.ws, j.pairs, j.perms, j.bal, fl, st)
+		c37RingSet(j.ws, j.pairs, j.perms, j.big, j.bal, fl, st)
 		if os.Getenv("C37_PROGRESS") != "" { // debugging aid only; never influences the result
 			fmt.Fprintf(os.Stderr, "c37 job %d/%d n=%d ws=%v %.2fs\n", k, len(order), len(j.ws), j.ws, time.Since(t0).Seconds())
 		}
